@@ -747,3 +747,92 @@ def pred_c02(case, impl, model, ctx):
     if len(impl) > len(case.ops):
         return False
     return True
+
+
+# ---- predicates that follow from theorems characterising the output completely ---------------------
+
+def pred_c04(case, impl, model, ctx):
+    """C04_wire / C04_pad / C04_truncate equate the model's output on these table-built frames with the specification packets
+    (specPacket), so on this domain the predicate IS equality with the model's line"""
+    for o, l, m in zip(case.ops, impl, model):
+        if l.startswith("CRASH"):
+            return False
+        if o.startswith("dec d feed") and l != m:
+            return False
+    return len(impl) <= len(case.ops)
+
+
+def pred_c15(case, impl, model, ctx):
+    """the C15 theorems characterise tecmpDecode on every input class (supported kinds: the wire fields; everything else: no packet)"""
+    for o, l, m in zip(case.ops, impl, model):
+        if l.startswith("CRASH"):
+            return False
+        if (o.startswith("dec d feed") or o.startswith("tecmp ")) and l != m:
+            return False
+    return len(impl) <= len(case.ops)
+
+
+def _parse_frame_for_spec(b):
+    """what the specification automaton of C17 needs from a buffer: endpoint, version, type, counter, whether unsegmented messages
+    precede, and the terminator (None / ("seg", type, declared bytes))"""
+    if len(b) < 8 or b[0] == 0:
+        return None
+    ep = (int.from_bytes(b[2:4], "big"), b[5])
+    ver, mt, seq = b[0], b[4], int.from_bytes(b[6:8], "big")
+    r = b[8:]
+    unseg = 0
+    while True:
+        if len(r) == 0:
+            return ep, ver, mt, seq, unseg, None
+        if len(r) < 16:
+            return ep, ver, mt, seq, unseg, None
+        ln = int.from_bytes(r[14:16], "big")
+        if ln > len(r) - 16 or (r[12] & 0x40) or r[13] == 0:
+            return ep, ver, mt, seq, unseg, None
+        st = r[12] & 0x0C
+        if st:
+            return ep, ver, mt, seq, unseg, ("seg", st, ln)
+        unseg += 1
+        r = r[16 + ln:]
+
+
+def pred_c17(case, impl, model, ctx):
+    """implementation only, against the buffer-free specification automaton (openSpec / openBytes of Props/C17.lean replayed in
+    Python): after every frame the pending table holds exactly the endpoints with a message in progress, each with at most
+    16 + the segment bytes received for it"""
+    spec = {}      # ep -> (ver, mt, seq, bytes)
+    for o, l in zip(case.ops, impl):
+        if l.startswith("CRASH"):
+            return False
+        w = o.split(" ")
+        if w[0] == "dec" and w[2] == "feed":
+            b = b"" if w[3] == "-" else bytes.fromhex(w[3])
+            f = _parse_frame_for_spec(b)
+            if f is None:
+                continue
+            ep, ver, mt, seq, unseg, term = f
+            if term is None:
+                spec.pop(ep, None)
+            else:
+                _, st, ln = term
+                if st == 4:
+                    spec[ep] = (ver, mt, seq, ln)
+                elif st == 8 and unseg == 0 and ep in spec and spec[ep][0] == ver and spec[ep][1] == mt and seq == (spec[ep][2] + 1) % 65536:
+                    spec[ep] = (ver, mt, seq, spec[ep][3] + ln)
+                else:
+                    spec.pop(ep, None)
+        elif w[0] == "dec" and w[2] == "destroy":
+            spec = {}
+        elif w[0] == "dec" and w[2] == "pending":
+            if not l.startswith("pending "):
+                return False
+            got = {}
+            for t in l.split(" ")[2:]:
+                d, s_, n = t.split(":")
+                got[(int(d), int(s_))] = int(n)
+            if set(got) != set(spec):
+                return False
+            for ep, n in got.items():
+                if n > 16 + spec[ep][3]:
+                    return False
+    return True
